@@ -99,9 +99,11 @@ func (f *FeedbackAdapter) unpackRunLengthChunk(
 			ssrc:           0,
 			sequenceNumber: i,
 		}
-		// Every received packet has a delta, whether or not it is still in the
+		// Every packet received with a delta has one, whether or not it is still in the
 		// history: consume it so that later packets keep their own arrival time.
-		received := chunk.PacketStatusSymbol != rtcp.TypeTCCPacketNotReceived
+		// (A packet "received without delta" carries no delta and no arrival time.)
+		received := chunk.PacketStatusSymbol == rtcp.TypeTCCPacketReceivedSmallDelta ||
+			chunk.PacketStatusSymbol == rtcp.TypeTCCPacketReceivedLargeDelta
 		if received {
 			if len(deltas)-1 < deltaIndex {
 				return deltaIndex, refTime, result, errInvalidFeedback
@@ -132,9 +134,10 @@ func (f *FeedbackAdapter) unpackStatusVectorChunk(
 			ssrc:           0,
 			sequenceNumber: start + uint16(i), //nolint:gosec // G115
 		}
-		// Every received packet has a delta, whether or not it is still in the
+		// Every packet received with a delta has one, whether or not it is still in the
 		// history: consume it so that later packets keep their own arrival time.
-		received := symbol != rtcp.TypeTCCPacketNotReceived
+		// (A packet "received without delta" carries no delta and no arrival time.)
+		received := symbol == rtcp.TypeTCCPacketReceivedSmallDelta || symbol == rtcp.TypeTCCPacketReceivedLargeDelta
 		if received {
 			if len(deltas)-1 < deltaIndex {
 				return deltaIndex, refTime, result, errInvalidFeedback
